@@ -140,7 +140,11 @@ class InversePowerPotential(StandardVelocityInvertiblePotential):
         float
             The potential.
         """
-        return charge_product * self._prefactor / vectors.norm_sq(separation) ** self._power_over_two
+        norm_sq_of_separation = vectors.norm_sq(separation)
+        if norm_sq_of_separation == 0.0:
+            # The potential diverges at a vanishing separation (reached when the separation is parallel to the motion).
+            return self._infinity if charge_product * self._prefactor > 0.0 else -self._infinity
+        return charge_product * self._prefactor / norm_sq_of_separation ** self._power_over_two
 
     def _displacement_repulsive(self, direction: int, charge_product: float, potential_change: float,
                                 separation: Sequence[float]) -> float:
@@ -150,14 +154,16 @@ class InversePowerPotential(StandardVelocityInvertiblePotential):
             return self._infinity
 
         # Active unit behind of target unit -> travel uphill
-        maximum_potential = self.potential(charge_product,
-                                           vectors.copy_vector_with_replaced_component(separation, direction, 0.0))
+        separation_at_maximum = vectors.copy_vector_with_replaced_component(separation, direction, 0.0)
+        maximum_potential = self.potential(charge_product, separation_at_maximum)
         current_potential = self.potential(charge_product, separation)
         if potential_change < maximum_potential - current_potential:
             norm_sq_of_new_separation_vector = (
                     (charge_product * self._prefactor / (current_potential + potential_change)) ** self._two_over_power)
+            # The new separation vector cannot be shorter than the separation at the maximum except for rounding.
             return vectors.displacement_until_new_norm_sq_component_positive(
-                separation, norm_sq_of_new_separation_vector, direction)
+                separation, max(norm_sq_of_new_separation_vector, sum(value ** 2 for value in separation_at_maximum)),
+                direction)
         return self._infinity
 
     def _displacement_attractive(self, direction: int, charge_product: float, potential_change: float,
@@ -174,6 +180,7 @@ class InversePowerPotential(StandardVelocityInvertiblePotential):
             return self._infinity
         norm_sq_of_new_separation_vector = (
                 (charge_product * self._prefactor / (current_potential + potential_change)) ** self._two_over_power)
+        # The new separation vector cannot be shorter than the current one except for rounding.
         current_displacement += vectors.displacement_until_new_norm_sq_component_negative(
-            separation, norm_sq_of_new_separation_vector, direction)
+            separation, max(norm_sq_of_new_separation_vector, sum(value ** 2 for value in separation)), direction)
         return current_displacement
